@@ -166,8 +166,9 @@ def run_pairs(ctx: Ctx, jobs: List[Tuple[dict, Any]]) -> None:
             # answered by unicast alone -- twice, which is permitted -- and there is nothing D9 could have doubled
             here = [m for m in p['mcs'] if m[0] == d['t']]
             rids = {a[0]: a[1] for m in here for a in m[1] if a[1] > 0}
-            # (a second of margin: the cache may have missed a sighting that was byte-identical to the one before it, finding D17)
-            recent = {r for r in rids if any(m[0] < d['t'] and d['t'] - m[0] < 250 * a[1] - 1000 for m in p['mcs'] for a in m[1] if a[0] == r and a[1] > 0)}
+            # (a quarter of the TTL the record has *now* -- an update may have shortened it; a second of margin: the cache may have missed
+            # a sighting that was byte-identical to the one before it, finding D17)
+            recent = {r for r in rids if any(m[0] < d['t'] and d['t'] - m[0] < 250 * rids[r] - 1000 for m in p['mcs'] for a in m[1] if a[0] == r and a[1] > 0)}
             # (the copy of a probe is answered like the probe: at once by multicast whatever was multicast before -- D9 again)
             if rids and recent == set(rids) and d['t'] not in p.get('quprobes', []):
                 disc = 'extra-multicast-of-recently-multicast-records'
